@@ -124,6 +124,11 @@ def flow() -> Route:
     return Route(nlri, AttributeCollection(), nexthop=IP.NoNextHop)
 
 
+def _check_flow_mask(netmask: str, offset: str, bits: int) -> None:
+    if not 0 <= int(offset) <= int(netmask) <= bits:
+        raise ValueError(f'invalid flow prefix length /{netmask} (offset {offset}): must be within 0-{bits}')
+
+
 def source(tokeniser: 'Tokeniser') -> Generator[Flow4Source | Flow6Source, None, None]:
     """Update source to handle both IPv4 and IPv6 flows."""
     data: str = tokeniser()
@@ -132,16 +137,19 @@ def source(tokeniser: 'Tokeniser') -> Generator[Flow4Source | Flow6Source, None,
         ip: str
         netmask: str
         ip, netmask = data.split('/')
+        _check_flow_mask(netmask, '0', IPv4.BITS)
         raw: bytes = b''.join(bytes([int(_)]) for _ in ip.split('.'))
         yield Flow4Source.make_prefix4(raw, int(netmask))
     # Check if it's IPv6 without an offset
     elif data.count(':') >= IPv6.COLON_MIN and data.count('/') == SINGLE_SLASH:
         ip, netmask = data.split('/')
+        _check_flow_mask(netmask, '0', IPv6.BITS)
         yield Flow6Source.make_prefix6(IP.pton(ip), int(netmask), 0)
     # Check if it's IPv6 with an offset
     elif data.count(':') >= IPv6.COLON_MIN and data.count('/') == DOUBLE_SLASH:
         offset: str
         ip, netmask, offset = data.split('/')
+        _check_flow_mask(netmask, offset, IPv6.BITS)
         yield Flow6Source.make_prefix6(IP.pton(ip), int(netmask), int(offset))
 
 
@@ -153,16 +161,19 @@ def destination(tokeniser: 'Tokeniser') -> Generator[Flow4Destination | Flow6Des
         ip: str
         netmask: str
         ip, netmask = data.split('/')
+        _check_flow_mask(netmask, '0', IPv4.BITS)
         raw: bytes = b''.join(bytes([int(_)]) for _ in ip.split('.'))
         yield Flow4Destination.make_prefix4(raw, int(netmask))
     # Check if it's IPv6 without an offset
     elif data.count(':') >= IPv6.COLON_MIN and data.count('/') == SINGLE_SLASH:
         ip, netmask = data.split('/')
+        _check_flow_mask(netmask, '0', IPv6.BITS)
         yield Flow6Destination.make_prefix6(IP.pton(ip), int(netmask), 0)
     # Check if it's IPv6 with an offset
     elif data.count(':') >= IPv6.COLON_MIN and data.count('/') == DOUBLE_SLASH:
         offset: str
         ip, netmask, offset = data.split('/')
+        _check_flow_mask(netmask, offset, IPv6.BITS)
         yield Flow6Destination.make_prefix6(IP.pton(ip), int(netmask), int(offset))
 
 
